@@ -20,7 +20,7 @@ ASSUMPTIONS = ['the interleaving theorem is about an abstract heap machine; that
 TIMEOUT = 3000
 MODS = ['c01', 'c02', 'c03', 'c05', 'c06', 'c07', 'c08', 'c09', 'c10', 'c11', 'c12', 'c13', 'c16', 'c17', 'c18', 'c19']
 # operations that use process-wide state of the harness itself (allocation traces, long histories) are left out
-SKIP_OPS = ('histF', 'histA', 'rand_bias')
+SKIP_OPS = ('histF', 'histA', 'rand_bias', 'mpz_mul_2exp_big')
 
 def nontrivial(line, tag):
     return True
